@@ -29,7 +29,7 @@ type vfStream struct {
 //	mode 0: nothing fixed
 //	mode 1: version >= 3 header with zero key/values (tensor section and final seeks)
 //	mode 2: version >= 3 header with exactly one key/value whose key is "general.alignment"
-//	mode 3: as 2 with key "general.architecture"
+//	mode 3..6: as 2 with key "general.architecture", "general.parameter_count", "general.file_type", "general.type"
 func (s *vfStream) vfFocus(p []byte, n int) {
 	if s.mode == 0 {
 		return
@@ -59,7 +59,7 @@ func (s *vfStream) vfFocus(p []byte, n int) {
 	}
 }
 
-var vfKeys = map[int]string{2: "general.alignment", 3: "general.architecture"}
+var vfKeys = map[int]string{2: "general.alignment", 3: "general.architecture", 4: "general.parameter_count", 5: "general.file_type", 6: "general.type"}
 
 func (s *vfStream) Read(p []byte) (int, error) {
 	if len(p) == 0 {
@@ -130,6 +130,12 @@ func VerifC10Decode(order int, maxArray int, maxReads int, mode int) {
 	kv := m.KV()
 	_ = kv.Architecture()
 	_ = kv.Uint("general.alignment", 32)
+	_ = kv.ParameterCount()
+	_ = kv.FileType()
+	_ = kv.Kind()
+	_ = kv.BlockCount()
+	_ = kv.ContextLength()
+	_ = kv.ChatTemplate()
 	_ = m.Tensors()
 	// progress: the returned end offset is what create.go's "for offset < size" loop advances by;
 	// a successful decode of a non-empty header must report an end offset past the header
